@@ -135,7 +135,21 @@ Inductive C06_case :=
 | KAvg (batches : list sbatch) (r : option Q)                            (* evaluate_average_loss / AverageLossEvaluator / HypCluster *)
 | KMime (lite : bool) (dr : option Q) (clients : list (list mbatch))     (* Mime / MimeLite full-batch gradient, one coordinate *)
 | KMimeClient (dr : option Q) (batches : list mbatch)                    (* client output (grads_sum, num_sum), one coordinate *)
-| KDomain (nd : nat) (r : option Q) (batches : list dbatch).             (* (domain_loss, domain_num) *)
+| KDomain (nd : nat) (r : option Q) (batches : list dbatch)              (* (domain_loss, domain_num) *)
+(* exhaustive small grid (wave 5): for every length l <= lmax, every mask in {F,T}^l and every domain id vector in
+   {0,1,2}^l, one batch holding the first l of `vals`: 3 domain losses, 3 domain counts, the average loss *)
+| KGrid (lmax : nat) (vals : list Q).
+
+Fixpoint vecs {A} (vals : list A) (n : nat) : list (list A) :=
+  match n with
+  | O => [[]]
+  | S n' => flat_map (fun x => map (cons x) (vecs vals n')) vals
+  end.
+Definition grid_values (lmax : nat) (vals : list Q) : list NanQ.t :=
+  flat_map (fun l => flat_map (fun m => flat_map (fun ids =>
+      let st := t_domain_metrics 3 None [(firstn l vals, m, ids)] in
+      fst st ++ snd st ++ [t_avg_loss [(firstn l vals, Some m)] None])
+    (vecs [0; 1; 2]%Z l)) (vecs [false; true] l)) (seq 1 lmax).
 
 Definition C06_obs := list Q.
 
@@ -161,6 +175,7 @@ Definition C06_agree (c : C06_case) (o : C06_obs) : bool :=
       let st := t_domain_metrics nd r bs in
       all2 nclose (fst st) (firstn nd ys) && all2 (fun x y => NanQ.same x (Some y)) (snd st) (skipn nd ys) &&
       Nat.eqb (length ys) (nd + nd)
+  | KGrid lmax vals, ys => all2 nclose (grid_values lmax vals) ys
   | _, _ => false
   end.
 
